@@ -1,5 +1,6 @@
 /* General conversion harness (C01, C02b, C04, C08, C16, C20 ...).
-   Input line:  <format> <extensions> <language> <hex source>
+   Input line:  <format> <extensions> <language> <hex source> [D]
+   (D = use mmd_string_convert_to_data: binary / packaged result of the recorded length)
    Each case runs in a forked child, so exit() inside the library, crashes and stderr output are
    observed per case.  Output line:
      <status> <completed 0/1> <stderr hex> <output hex>
@@ -10,6 +11,7 @@
 #include <poll.h>
 #include "libMultiMarkdown.h"
 #include "token.h"
+#include "d_string.h"
 
 static char * slurp2(int fd1, int fd2, char ** out2, size_t * n1, size_t * n2) {
 	size_t c1 = 1 << 16, c2 = 1 << 12; char * b1 = malloc(c1), * b2 = malloc(c2);
@@ -48,8 +50,14 @@ int main(void) {
 			dup2(pe[1], 2);
 			alarm(20);
 			token_pool_init();
-			char * out = mmd_string_convert(src, ext, (short) fmt, (short) lang);
-			size_t n = out ? strlen(out) : 0;
+			char * out; size_t n;
+			if (nf >= 5 && f[4][0] == 'D') {
+				DString * dd = mmd_string_convert_to_data(src, ext, (short) fmt, (short) lang, NULL);
+				out = dd ? dd->str : NULL; n = dd ? dd->currentStringLength : 0;
+			} else {
+				out = mmd_string_convert(src, ext, (short) fmt, (short) lang);
+				n = out ? strlen(out) : 0;
+			}
 			char done = 1;
 			/* completion marker first, then the output */
 			if (write(po[1], &done, 1) != 1) _exit(3);
